@@ -54,7 +54,7 @@ import os as _os
 from vf.core import REPO as _REPO, HarnessError as _HarnessError, lean_str as _lean_str, lean_list as _lean_list
 
 MODULES = ["Model.Tree", "Proofs.Tree", "Proofs.TreeFrame", "Proofs.TreeCopy", "Proofs.TreeRun", "Proofs.TreeNorm",
-           "Proofs.TreeWalk", "Proofs.TreeRepair", "Generated.C08", "Properties.C08"]
+           "Proofs.TreeWalk", "Proofs.TreeRepair", "Proofs.TreeOrder", "Generated.C08", "Properties.C08"]
 _P = "SqlglotModel.Properties.C08."
 THEOREMS = [_P + n for n in (
     "inv_init", "inv_new", "inv_set", "inv_append", "inv_replace", "inv_pop", "inv_hash", "inv_eq", "inv_copy",
@@ -63,7 +63,9 @@ THEOREMS = [_P + n for n in (
     "uncached_child_uncached_parent", "cached_hash_is_recomputed", "eq_iff_recomputed", "eq_iff_structure",
     "eq_different_class", "freeHash_collision_free", "freeHash_eval", "closure_needed",
     "negative_index_breaks_links", "negative_index_normalised_witness", "negative_index_normalised_ok",
-    "replace_by_own_child_leaves_husk", "generated_structure_ok", "primitive_classes_scalar_only",
+    "replace_by_own_child_leaves_husk", "replaceRec_extends_replace", "replace_list_in_scalar_slot_leaves_husk",
+    "hash_insertion_order_independent", "unsorted_hash_depends_on_insertion_order",
+    "generated_structure_ok", "primitive_classes_scalar_only",
 )]
 
 
@@ -1760,6 +1762,9 @@ def translate(chk) -> str:
         "eqIsHashEquality": _eq_is_hash(_method(tree, "Expression", "__eq__")),
     }
     facts.update(_loop_shapes(tree))
+    hsrc = _ast.unparse(_method(tree, "Expression", "__hash__")) if _method(tree, "Expression", "__hash__") else ""
+    facts["hashIteratesSortedKeys"] = hsrc.count("for k in sorted(node.args):") == 2 and "in node.args.items()" not in hsrc \
+        and "for k in node.args:" not in hsrc
     # not a required shape: which of the two modelled variants of `set(k, None, index<0)` the source has
     set_src = _ast.unparse(_method(tree, "Expression", "set")) if _method(tree, "Expression", "set") else ""
     neg_norm = "if index < 0" in set_src
@@ -2234,15 +2239,11 @@ def random_history(rng, max_len, wild=0.08):
                 v = {"n": pick_node_value(anchor)}
                 # never replace by the parent's ancestor chain (cycle) — pick_node_value already excludes ancestors of tgt;
                 # the value goes under tgt's PARENT, whose ancestors are tgt's ancestors too
-            elif vr < 0.9 and o.index is not None:
+            elif vr < 0.9:
                 v = {"l": pick_items(anchor)}
             else:
                 v = {"s": "x"}
-            if v is not None and "l" in v and o.parent is not None and \
-                    isinstance(o.parent.args.get(o.arg_key), Expr):
-                # `replace(list)` where the parent's slot holds a single node (also reachable through a stale list index):
-                # the code then replaces the PARENT recursively — the one path the model does not mirror
-                continue
+            # (`replace(list)` on a node in a scalar slot replaces the PARENT recursively: mirrored by `opReplaceRec`)
             res = emit({"op": "replace", "n": tgt, "v": v})
         elif r < 0.74:
             res = emit({"op": "pop", "n": tgt})
